@@ -21,6 +21,19 @@ CLAIMED = {
         technique='TLC model checking of Selection.tla (Impl vs Rule) + TLC-judged exhaustive sweep of the real considerPEL and CLI'),
 }
 
+CLAIMED['C05'] = dict(
+    text='TLC model-checks the cursor machine of DataStream.tla (Read / ReadRejected; InBounds, NoFabrication, '
+         'Monotone hold for the checked machine and InBounds fails for the unchecked -O deviation).  The real '
+         'parsePEL is run over every proper prefix and single-byte corruptions at every offset of generated '
+         'well-formed PELs (all section kinds, shipped plugins included) plus random strings, under python and '
+         'python -O, with every cursor movement logged by a DataStream subclass; TLC judges each logged event as a '
+         'step of the cursor machine and each outcome against the statement (allowed outcomes, prefixes rejected, '
+         'bounded work, python = python -O); a sample runs through the real command line as subprocesses.',
+    design='DESIGN.md 4.3, 5 C05',
+    note='Trusted: TLC; the traced DataStream subclass calls the real methods.  Any Exception subclass counts as an '
+         'ordinary error.  Value space is sampled (prefixes exhaustive per base PEL, corruptions 1-3 values per offset).',
+    technique='TLC model checking of DataStream.tla + TLC trace validation of recorded cursor events and outcomes of the real decoder (python and python -O)')
+
 REASON_NOT_YET = 'check not built yet in this session (planned per DESIGN.md 5); not claimed until its TLC-judged check runs green on the unchanged tree'
 
 
